@@ -273,8 +273,8 @@ type c19Proc struct {
 	port     int
 	errPath  string
 	outPath  string
-	conn     net.Conn  // a request put in flight by the harness and not finished (webui)
-	asked    string    // the signal that asked it to stop while that request was in flight; it has not exited since
+	conn     net.Conn // a request put in flight by the harness and not finished (webui)
+	asked    string   // the signal that asked it to stop while that request was in flight; it has not exited since
 	askedAt  time.Time
 	mark     string
 	gofile   string
